@@ -479,12 +479,12 @@ fn depth2_stats(lo: u32, hi: u32, a0: u32, a1: u32, a2: u32, d1: u64, d2: u64, n
 
 // @harness c08_bigbed_zoom_step
 // @props C08
-// @tier quick
+// @tier thorough
 // @kind core
 // @timeout 3600
 // @mem 40
 // @functions bigbedwrite::process_val_zoom (coverage sweep + tiling into zoom records): ONE call from an ARBITRARY valid per-level state
-// @bounds pre-state: tracked coverage = 0..=2 contiguous pieces starting at the entry's start with strictly decreasing positive depths (what the sweep leaves behind), live zoom record absent or any record satisfying the invariant (ends at or before the entry's start, shorter than the resolution, 1..=len covered bases, depth statistics 1..=3); entry [is,ie) with is <= 4, all coordinates <= 7; the next entry starts at 12 (everything is swept); resolution 3; items_per_slot 8
+// @bounds (number of tracked pieces symbolic) pre-state: tracked coverage = 0..=2 contiguous pieces starting at the entry's start with strictly decreasing positive depths (what the sweep leaves behind), live zoom record absent or any record satisfying the invariant (ends at or before the entry's start, shorter than the resolution, 1..=len covered bases, depth statistics 1..=3); entry [is,ie) with is <= 4, all coordinates <= 7; the next entry starts at 12 (everything is swept); resolution 3; items_per_slot 8
 // @assumes representation invariant as stated; depths <= 3
 // @stubs tokio Handle::spawn -> counted/discarded (asserted not to happen); the two channel hand-offs `zoom_item.channel.send(handle).await.expect(..)` -> `direct_send(..)` by source substitution (with the await points left in, the coroutine lowering merges the nested loop heads and no unwinding budget up to 24 sufficed); Vec::push -> within capacity (asserted); index_list::IndexList -> 4-slot sequence model by one source substitution of the `use` line
 // @sub src/bbi/bigbedwrite.rs ::: use index_list::IndexList; ::: use crate::verif_support::ilist::IndexList; ||| src/bbi/bigbedwrite.rs ::: zoom_item.channel.send(handle).await.expect("Couln't send"); ::: crate::verif_support::env::direct_send(&mut zoom_item.channel, handle); ::: 2
@@ -495,11 +495,80 @@ fn depth2_stats(lo: u32, hi: u32, a0: u32, a1: u32, a2: u32, d1: u64, d2: u64, n
 #[kani::stub(tokio::runtime::Handle::spawn, fake_spawn_skip)]
 #[kani::stub(alloc::vec::Vec::push, push_within_capacity)]
 fn c08_bigbed_zoom_step() {
+    zoom_step(None);
+}
+
+// @harness c08_bigbed_zoom_step_np0
+// @props C08
+// @tier quick
+// @kind core
+// @timeout 3600
+// @mem 24
+// @functions bigbedwrite::process_val_zoom (coverage sweep + tiling into zoom records): ONE call from an ARBITRARY valid per-level state
+// @bounds INSTANCE with 0 tracked pieces; pre-state: tracked coverage = 0..=2 contiguous pieces starting at the entry's start with strictly decreasing positive depths (what the sweep leaves behind), live zoom record absent or any record satisfying the invariant (ends at or before the entry's start, shorter than the resolution, 1..=len covered bases, depth statistics 1..=3); entry [is,ie) with is <= 4, all coordinates <= 7; the next entry starts at 12 (everything is swept); resolution 3; items_per_slot 8
+// @assumes representation invariant as stated; depths <= 3
+// @stubs tokio Handle::spawn -> counted/discarded (asserted not to happen); the two channel hand-offs `zoom_item.channel.send(handle).await.expect(..)` -> `direct_send(..)` by source substitution (with the await points left in, the coroutine lowering merges the nested loop heads and no unwinding budget up to 24 sufficed); Vec::push -> within capacity (asserted); index_list::IndexList -> 4-slot sequence model by one source substitution of the `use` line
+// @sub src/bbi/bigbedwrite.rs ::: use index_list::IndexList; ::: use crate::verif_support::ilist::IndexList; ||| src/bbi/bigbedwrite.rs ::: zoom_item.channel.send(handle).await.expect("Couln't send"); ::: crate::verif_support::env::direct_send(&mut zoom_item.channel, handle); ::: 2
+// @cut end-of-chromosome flush; other resolutions; more than 2 tracked pieces; f32 narrowing (c09_zoom_section_layout)
+// @witness cover: entry nested in the first tracked piece; entry reaching past all tracked pieces; a live record that is continued
+#[kani::proof]
+#[kani::unwind(6)]
+#[kani::stub(tokio::runtime::Handle::spawn, fake_spawn_skip)]
+#[kani::stub(alloc::vec::Vec::push, push_within_capacity)]
+fn c08_bigbed_zoom_step_np0() {
+    zoom_step(Some(0));
+}
+
+// @harness c08_bigbed_zoom_step_np1
+// @props C08
+// @tier quick
+// @kind core
+// @timeout 3600
+// @mem 24
+// @functions bigbedwrite::process_val_zoom (coverage sweep + tiling into zoom records): ONE call from an ARBITRARY valid per-level state
+// @bounds INSTANCE with exactly 1 tracked piece; pre-state: tracked coverage = 0..=2 contiguous pieces starting at the entry's start with strictly decreasing positive depths (what the sweep leaves behind), live zoom record absent or any record satisfying the invariant (ends at or before the entry's start, shorter than the resolution, 1..=len covered bases, depth statistics 1..=3); entry [is,ie) with is <= 4, all coordinates <= 7; the next entry starts at 12 (everything is swept); resolution 3; items_per_slot 8
+// @assumes representation invariant as stated; depths <= 3
+// @stubs tokio Handle::spawn -> counted/discarded (asserted not to happen); the two channel hand-offs `zoom_item.channel.send(handle).await.expect(..)` -> `direct_send(..)` by source substitution (with the await points left in, the coroutine lowering merges the nested loop heads and no unwinding budget up to 24 sufficed); Vec::push -> within capacity (asserted); index_list::IndexList -> 4-slot sequence model by one source substitution of the `use` line
+// @sub src/bbi/bigbedwrite.rs ::: use index_list::IndexList; ::: use crate::verif_support::ilist::IndexList; ||| src/bbi/bigbedwrite.rs ::: zoom_item.channel.send(handle).await.expect("Couln't send"); ::: crate::verif_support::env::direct_send(&mut zoom_item.channel, handle); ::: 2
+// @cut end-of-chromosome flush; other resolutions; more than 2 tracked pieces; f32 narrowing (c09_zoom_section_layout)
+// @witness cover: entry nested in the first tracked piece; entry reaching past all tracked pieces; a live record that is continued
+#[kani::proof]
+#[kani::unwind(6)]
+#[kani::stub(tokio::runtime::Handle::spawn, fake_spawn_skip)]
+#[kani::stub(alloc::vec::Vec::push, push_within_capacity)]
+fn c08_bigbed_zoom_step_np1() {
+    zoom_step(Some(1));
+}
+
+// @harness c08_bigbed_zoom_step_np2
+// @props C08
+// @tier quick
+// @kind core
+// @timeout 3600
+// @mem 24
+// @functions bigbedwrite::process_val_zoom (coverage sweep + tiling into zoom records): ONE call from an ARBITRARY valid per-level state
+// @bounds INSTANCE with exactly 2 tracked pieces; pre-state: tracked coverage = 0..=2 contiguous pieces starting at the entry's start with strictly decreasing positive depths (what the sweep leaves behind), live zoom record absent or any record satisfying the invariant (ends at or before the entry's start, shorter than the resolution, 1..=len covered bases, depth statistics 1..=3); entry [is,ie) with is <= 4, all coordinates <= 7; the next entry starts at 12 (everything is swept); resolution 3; items_per_slot 8
+// @assumes representation invariant as stated; depths <= 3
+// @stubs tokio Handle::spawn -> counted/discarded (asserted not to happen); the two channel hand-offs `zoom_item.channel.send(handle).await.expect(..)` -> `direct_send(..)` by source substitution (with the await points left in, the coroutine lowering merges the nested loop heads and no unwinding budget up to 24 sufficed); Vec::push -> within capacity (asserted); index_list::IndexList -> 4-slot sequence model by one source substitution of the `use` line
+// @sub src/bbi/bigbedwrite.rs ::: use index_list::IndexList; ::: use crate::verif_support::ilist::IndexList; ||| src/bbi/bigbedwrite.rs ::: zoom_item.channel.send(handle).await.expect("Couln't send"); ::: crate::verif_support::env::direct_send(&mut zoom_item.channel, handle); ::: 2
+// @cut end-of-chromosome flush; other resolutions; more than 2 tracked pieces; f32 narrowing (c09_zoom_section_layout)
+// @witness cover: entry nested in the first tracked piece; entry reaching past all tracked pieces; a live record that is continued
+#[kani::proof]
+#[kani::unwind(6)]
+#[kani::stub(tokio::runtime::Handle::spawn, fake_spawn_skip)]
+#[kani::stub(alloc::vec::Vec::push, push_within_capacity)]
+fn c08_bigbed_zoom_step_np2() {
+    zoom_step(Some(2));
+}
+
+fn zoom_step(np_fixed: Option<u8>) {
     let size: u32 = 3;
     let (is, ie): (u32, u32) = (kani::any(), kani::any());
     kani::assume(is <= ie && is <= 4 && ie <= 7);
     // tracked pieces
-    let np: u8 = kani::any();
+    // number of tracked pieces: symbolic in the thorough harness, one concrete value per quick instance (the
+    // case split cuts the solver time from 37 min to a few minutes per instance)
+    let np: u8 = match np_fixed { Some(v) => v, None => kani::any() };
     kani::assume(np <= 2);
     let (a1, a2): (u32, u32) = (kani::any(), kani::any());
     let (d1, d2): (u8, u8) = (kani::any(), kani::any());
@@ -576,10 +645,10 @@ fn c08_bigbed_zoom_step() {
         i += 1;
     }
     assert!(got == tot, "[exactly_once] every covered base must lie in exactly one record");
-    let c1 = (np >= 1) & (ie < a1) & (is < ie);
-    kani::cover!(c1, "entry nested in the first tracked piece");
-    let c2 = (np >= 1) & (ie > a1) & ((np < 2) | (ie > a2));
-    kani::cover!(c2, "entry reaching past all tracked pieces");
+    let c1 = ((np >= 1) & (ie < a1) & (is < ie)) | ((np == 0) & (is < ie));
+    kani::cover!(c1, "entry nested in the first tracked piece (no tracked piece: any non-empty entry)");
+    let c2 = ((np >= 1) & (ie > a1) & ((np < 2) | (ie > a2))) | ((np == 0) & (ie > is + 3));
+    kani::cover!(c2, "entry reaching past all tracked pieces (no tracked piece: an entry longer than the resolution)");
     let c3 = has_live & (is == le) & (is < ie);
     kani::cover!(c3, "live record continued");
     core::mem::forget(zoom_items);
